@@ -53,7 +53,10 @@ fn check_no_zero_sized_cycle_inner(
 		if let RegularType::Record(_) = &schema.nodes[field.type_.idx].type_ {
 			if visited_nodes[field.type_.idx] {
 				return Err(UnconditionalCycle {});
-			} else {
+			} else if !checked_nodes[field.type_.idx] {
+				// (If we have already fully checked that record as part of another
+				// path, no need to go through it again: not doing so would make this
+				// check exponential on records that are referenced several times.)
 				check_no_zero_sized_cycle_inner(
 					schema,
 					field.type_.idx,
